@@ -75,7 +75,8 @@ pub fn drive(trace: &StreamTrace, variant: u8, prop: &str, obs: &mut dyn Observe
             1 => drive_v1(stream, a, &bounds(trace, a, b), prop, obs, &mut out)?,
             2 => drive_v2(stream, a, &bounds(trace, a, b), prop, obs, &mut out)?,
             3 => drive_v3(stream, a, &bounds(trace, a, b), prop, obs, &mut out)?,
-            _ => drive_v4(stream, a, &bounds(trace, a, b), prop, obs, &mut out)?,
+            4 => drive_v4(stream, a, &bounds(trace, a, b), prop, obs, &mut out)?,
+            _ => drive_v5(stream, a, &bounds(trace, a, b), prop, obs, &mut out)?,
         };
         out.incarnations.push((a, b, consumed));
     }
@@ -263,6 +264,45 @@ fn drive_v4(stream: &[u8], a: usize, bounds: &[usize], prop: &str, obs: &mut dyn
         }
     }
     Ok(start)
+}
+
+/// V5 datagram receiver: ONE fixed receive buffer, every piece is copied to its start and
+/// scanned in place; what a piece leaves unconsumed is discarded (each datagram stands alone).
+/// Not a streaming caller, so it is not part of the C06 comparison; the per-call oracles
+/// (C03, C04, C05, C13) apply to each of its calls like to any other. Its point: successive
+/// calls see the SAME address (and often the same length) with different contents.
+fn drive_v5(stream: &[u8], a: usize, bounds: &[usize], prop: &str, obs: &mut dyn Observer, out: &mut RoverOut) -> Result<usize, Violation> {
+    let mut cap = 0usize;
+    let mut prev = a;
+    for &end in bounds {
+        cap = cap.max(end - prev);
+        prev = end;
+    }
+    let mut buf: Vec<u8> = vec![0u8; cap.max(1)];
+    let mut have = a;
+    let mut total = 0usize;
+    for &end in bounds {
+        let n = end - have;
+        obs.on_chunk(have, n);
+        buf[..n].copy_from_slice(&stream[have..end]);
+        let chunk_start = have;
+        have = end;
+        let mut pos = 0usize;
+        let mut guard = 0usize;
+        loop {
+            let (c, d) = scan_once(&buf[pos..n], chunk_start + pos, have, prop, obs, out)?;
+            pos += c;
+            if !d {
+                break;
+            }
+            guard += 1;
+            if guard > n + 2 {
+                return Err(breach(prop, "C05.e", format!("drain loop does not terminate at abs {}", chunk_start + pos)));
+            }
+        }
+        total += pos;
+    }
+    Ok(total)
 }
 
 /// one-shot reference behaviour of C06: the real scanner applied repeatedly to
